@@ -27,7 +27,7 @@ type Resp struct {
 type Case struct {
 	Responders []Resp `json:"responders"`
 	Strict     bool   `json:"strict"`
-	Cache      bool   `json:"cache"`  // default_cache_duration 30s (else 0)
+	Cache      bool   `json:"cache"` // default_cache_duration 30s (else 0)
 	CAKey      string `json:"ca_key"`
 	LeafKey    string `json:"leaf_key"`
 	LeafAKI    string `json:"leaf_aki"` // "" (keyId) | absent | issuerserial | both
@@ -51,8 +51,11 @@ func genCase(t *rapid.T) Case {
 	for i := 0; i < n; i++ {
 		r := Resp{Scheme: rapid.SampledFrom([]string{"http", "http", "http", "http", "HTTP", "https-untrusted", "refused", "ldap", "garbage-url"}).Draw(t, fmt.Sprintf("scheme%d", i))}
 		r.Answer.Kind = rapid.SampledFrom(answerKinds).Draw(t, fmt.Sprintf("kind%d", i))
-		if rapid.IntRange(0, 4).Draw(t, fmt.Sprintf("deleg%d", i)) == 0 {
+		switch rapid.IntRange(0, 7).Draw(t, fmt.Sprintf("deleg%d", i)) {
+		case 0:
 			r.Answer.Signer = "delegated"
+		case 1:
+			r.Answer.Signer = "delegated-big" // authentic response of more than 3 KiB (RSA-3072 responder, long subject, embedded certificate)
 		}
 		c.Responders = append(c.Responders, r)
 	}
@@ -235,10 +238,10 @@ func describe(rs []Resp) string {
 }
 
 var spec = ev.Spec[Case]{
-	ID:  "C02",
-	Gen: genCase,
-	Run: runCase,
-	Rule: "rapid draws a responder list of 0..4 URLs over schemes {http, HTTP (upper case), https with an untrusted certificate, connection refused, ldap, ftp}, a behaviour per responder {good, revoked, unknown (issuer-signed or by an issuer-delegated responder), HTTP 500 + body, garbage, HTML page, empty body, OCSP error status tryLater / unauthorized / internalError}, strict on/off, cache 0 / 30 s, CA and leaf key types, leaf AKI form (keyId, absent, issuer+serial, both), chain depth, and a second handshake {none, all responders down, deciding responder flipped}. Reference model: walk the HTTP responders in order, the first authentic answer decides (revoked => reject), no authentic answer => reject iff strict and an HTTP responder is named. Oracle: verdict equality; HTTP responders before the deciding one were contacted, later ones and non-HTTP ones never; with the authentic answer cached the second handshake keeps the verdict although every responder is down; with nothing cacheable it follows the responders. Non-trivial: a non-answer before the deciding responder, or strict with all unavailable, or a second handshake; distinct by the full case shape.",
+	ID:          "C02",
+	Gen:         genCase,
+	Run:         runCase,
+	Rule:        "rapid draws a responder list of 0..4 URLs over schemes {http, HTTP (upper case), https with an untrusted certificate, connection refused, ldap, ftp}, a behaviour per responder {good, revoked, unknown (issuer-signed or by an issuer-delegated responder), HTTP 500 + body, garbage, HTML page, empty body, OCSP error status tryLater / unauthorized / internalError}, strict on/off, cache 0 / 30 s, CA and leaf key types, leaf AKI form (keyId, absent, issuer+serial, both), chain depth, and a second handshake {none, all responders down, deciding responder flipped}. Reference model: walk the HTTP responders in order, the first authentic answer decides (revoked => reject), no authentic answer => reject iff strict and an HTTP responder is named. Oracle: verdict equality; HTTP responders before the deciding one were contacted, later ones and non-HTTP ones never; with the authentic answer cached the second handshake keeps the verdict although every responder is down; with nothing cacheable it follows the responders. Non-trivial: a non-answer before the deciding responder, or strict with all unavailable, or a second handshake; distinct by the full case shape.",
 	Assumptions: []string{"only unambiguous answers are used here (issuer or properly delegated signer, right serial, or plainly no answer); forged responses are C05"},
 }
 
